@@ -84,6 +84,47 @@ CheckFilter(e) ==
                /\ Chk(run.res = EvalFilter(r.node, Ctxs[run.ctx], sch),
                       <<"execute result on ctx", run.ctx, "observed", run.res>>)
 
+(* C03, invocation log of recorded executions.  The functions of the harness family listed in LogSems write down  *)
+(* every invocation (name of the implementation, argument tuple).  Whatever the engine memoises or re-evaluates:    *)
+(*  - every recorded invocation is one that CallLog prescribes for some call of that function in the expression     *)
+(*    (arguments in source order, literals as written, defaults, typed absences, one element of the first argument  *)
+(*    under [*]) - no call node is evaluated against anything but the context, so this does not depend on position; *)
+(*  - the call at the root of a value expression is evaluated exactly once per execution, so its prescribed          *)
+(*    invocations occur, in order, among the recorded invocations of its function.                                  *)
+(* How often a nested call is evaluated (memoised or once per element, skipped by a short-circuit) is not stated    *)
+(* by C03 and not judged.                                                                                           *)
+LogSems == {"aa", "ab", "alen", "ba", "blen", "both", "drop_empty", "join3", "lit_only", "opt2", "pair", "plen"}
+RECURSIVE CallsIn(_), CallsInIdx(_), CallsInArg(_)
+CallsInArg(a) == IF a.k = "aidx" THEN CallsInIdx(a.e) ELSE IF a.k = "alit" THEN <<>> ELSE CallsIn(a.e)
+CallsInIdx(ie) ==
+  IF ie.id.k = "field" THEN <<>>
+  ELSE <<ie.id>> \o FlatSeq(Strict([i \in 1..Len(ie.id.args) |-> CallsInArg(ie.id.args[i])]))
+CallsIn(n) ==
+  IF n.k = "comb" THEN FlatSeq(Strict([i \in 1..Len(n.items) |-> CallsIn(n.items[i])]))
+  ELSE IF n.k = "cmp" THEN CallsInIdx(n.lhs)
+  ELSE IF n.k = "quant" THEN CallsInArg(n.arg)
+  ELSE CallsIn(n.e)
+ArgEq(a, b) == /\ a.t = b.t
+               /\ IF a.t = "nil" THEN (("ty" \in DOMAIN a /\ "ty" \in DOMAIN b) => a.ty = b.ty) ELSE a = b
+TupEq(x, y) == Len(x) = Len(y) /\ \A i \in 1..Len(x) : ArgEq(x[i], y[i])
+RECURSIVE IsSubseqBy(_, _)
+IsSubseqBy(p, o) == IF p = <<>> THEN TRUE ELSE IF o = <<>> THEN FALSE
+                    ELSE IF TupEq(Head(p), Head(o)) THEN IsSubseqBy(Tail(p), Tail(o)) ELSE IsSubseqBy(p, Tail(o))
+SemOfCall(c, sch) == FuncOf(sch, c.name).sem
+(* obs: <<sem, argument tuple>> per invocation, in order; nodes: the call nodes of the expression *)
+CallObsOk(obs, nodes, root, ctx, sch) ==
+  LET logged == SelectSeq(nodes, LAMBDA c : SemOfCall(c, sch) \in LogSems)
+      logs == Strict([j \in 1..Len(logged) |-> CallLog(logged[j], ctx, sch)])
+  IN /\ \A i \in 1..Len(obs) :
+          obs[i][1] \in LogSems =>
+            Chk(\E j \in 1..Len(logged) : /\ SemOfCall(logged[j], sch) = obs[i][1]
+                                           /\ \E k \in 1..Len(logs[j]) : TupEq(logs[j][k], obs[i][2]),
+                <<"invocation with arguments no call of the expression prescribes", obs[i]>>)
+     /\ (root.k # "field" /\ SemOfCall(root, sch) \in LogSems) =>
+          LET mine == SelectSeq(obs, LAMBDA o : o[1] = SemOfCall(root, sch))
+          IN Chk(IsSubseqBy(CallLog(root, ctx, sch), Strict([i \in 1..Len(mine) |-> mine[i][2]])),
+                 <<"invocations of the root call: expected (in order)", CallLog(root, ctx, sch), "recorded", mine>>)
+
 CheckValue(e) ==
   LET sch == Schs[e.sch]
       r == ParseValue(e.ts, sch, e.max)
@@ -98,6 +139,9 @@ CheckValue(e) ==
                /\ Chk(run.out = "ok", <<"execute outcome", run.out, "ctx", run.ctx>>)
                /\ Chk(run.res.t = x.t /\ run.res = x,
                       <<"value on ctx", run.ctx, "expected", x, "observed", run.res>>)
+               /\ ("rec" \in DOMAIN e /\ e.rec /\ run.out = "ok") =>
+                     CallObsOk(IF "calls" \in DOMAIN run THEN run.calls ELSE <<>>, CallsInIdx(r.node), r.node.id,
+                               Ctxs[run.ctx], sch)
 
 (* the TEXT of a filter or value expression (code points), judged by the character-level parser: white space *)
 (* anywhere or nowhere, glued keywords, corrupted characters.  "unspec" verdicts are not judged.            *)
